@@ -325,6 +325,9 @@ def _verify_function(qualname: str, timeout_ms=20000, cross_check=False, only=No
             it.obligations.extend(it._buf)
             it._buf = []
             tag = f"[{','.join(f'{k}={v!r}' for k, v in fixed.items())}]" if fixed else ""
+            if len(tag) > 200:  # keep obligation names readable: long variant descriptions are cut and made unique by a digest
+                import hashlib
+                tag = tag[:150] + "...~" + hashlib.sha1(tag.encode()).hexdigest()[:8] + "]"
             rep.paths += len(outs)
             for pi, o in enumerate(outs):
                 if o.kind in ("return", "fall"):
